@@ -84,6 +84,12 @@ static bool compare_state(Theo::VM &vm, const Theo::Program &code, ri::Interp &i
       auto rv = rf.vars.find(name);
       if (rv != rf.vars.end()) want = rv->second;
       if (it == view.end()) {
+        // the implicit result variable x0 of a routine that never mentions it need not be listed (it is 0 by definition)
+        if (rf.routine >= 0 && !in.p.defs[(size_t)rf.routine].has_out && name == "x0" && want == 0) {
+          std::set<std::string> mentioned(in.p.defs[(size_t)rf.routine].params.begin(), in.p.defs[(size_t)rf.routine].params.end());
+          gp::stmt_vars(in.p.defs[(size_t)rf.routine].body, mentioned);
+          if (!mentioned.count("x0")) continue;
+        }
         r.fail(std::string(sigp) + ":variable-missing",
                where + "activation " + std::to_string(i) + " (" + rf.name + ") does not list variable '" + name + "'");
         return false;
